@@ -667,6 +667,8 @@ func rawSignatureData(rrset []RR, s *RRSIG) (buf []byte, err error) {
 			x.Host = CanonicalName(x.Host)
 		case *SIG:
 			x.SignerName = CanonicalName(x.SignerName)
+		case *NXT:
+			x.NextDomain = CanonicalName(x.NextDomain)
 		case *PX:
 			x.Map822 = CanonicalName(x.Map822)
 			x.Mapx400 = CanonicalName(x.Mapx400)
